@@ -31,6 +31,7 @@ struct Model {
   static void bounds_of(const Shape& sh, const Op& op, int& lo, int& hi) {
     switch (sh.tform) {
       case TF_RT: lo = op.lo; hi = op.hi; break;
+      case TF_RT1: lo = hi = op.lo; break;
       case TF_DEFAULT: lo = 1; hi = 1; break;
       case TF_N: lo = hi = sh.tl; break;
       case TF_LH: lo = sh.tl; hi = sh.th; break;
